@@ -120,12 +120,16 @@ Definition fn_id (name : String.string) : Z :=
 Definition field_id (name : String.string) : Z :=
   match filter (fun fn => String.eqb (snd fn) name) field_names with (i, _) :: _ => i | [] => -1 end.
 
-(* the table without the signal/panic path: no call of Vaxis.Close from inside the library
-   (its only in-library callers are the kill-signal branch and the recover() handler of the
-   input goroutine) and no [sigclose] role.  This is the program run with
-   Options.NoSignals and without panics in the input goroutine or a spinner. *)
+(* the table without the signal/panic path: no call of Vaxis.Close from the input goroutine
+   (the kill-signal branch and the recover() handler: the function literals of openTty) and
+   no [sigclose] role.  This is the program run with Options.NoSignals and without panics
+   in the input goroutine or a spinner.  Other in-library calls of Close (error paths of
+   New) stay. *)
 Definition close_fn : Z := fn_id "vaxis.Vaxis.Close"%string.
-Definition calls_nosig : list call := filter (fun c => negb (snd (fst c) =? close_fn)) calls.
+Definition input_lits : list Z :=
+  map fst (filter (fun fn => String.prefix "vaxis.Vaxis.openTty$"%string (snd fn)) fn_names).
+Definition calls_nosig : list call :=
+  filter (fun c => negb ((snd (fst c) =? close_fn) && zmem (fst (fst c)) input_lits)) calls.
 Definition entries_nosig : list (Z * Z) := filter (fun e => negb (fst e =? role_sigclose)) entries.
 
 Definition tbl_full := role_table calls entries.
